@@ -36,7 +36,7 @@ cargo test --workspace --no-fail-fast --offline 2>&1 | grep -E "^test result|FAI
 PASSED=$(grep "^test result: ok" $LOG.suite | sed -E 's/.*ok\. ([0-9]+) passed.*/\1/' | paste -sd+ | bc)
 if grep -q "FAILED\|^error" $LOG.suite || [ "$PASSED" != "152" ]; then echo "$P $K: existing suite not green with the change (passed=$PASSED)"; grep -E "FAILED|error" $LOG.suite | head; exit 1; fi
 mkdir -p $WT/$DEST; for d in $DEMOS; do cp $SRC/$d $WT/$DEST/; done
-{ echo "== 3. with change, demo"; if [ "${MODE:-test}" = example ]; then $RUNNER $PKG $NAMES > $LOG.ex 2>&1; rc=$?; tail -3 $LOG.ex; [ $rc -ne 0 ] && echo "FAILED exit=$rc"; else cargo test --offline $PKG $NAMES 2>&1 | grep -E "^test result|FAILED|panicked" | head -20; fi; } > $LOG.demo
+{ echo "== 3. with change, demo"; if [ "${MODE:-test}" = example ]; then $RUNNER $PKG $NAMES > $LOG.ex 2>&1; rc=$?; tail -3 $LOG.ex; [ $rc -ne 0 ] && echo "FAILED exit=$rc"; else cargo test --offline $PKG $NAMES 2>&1 | grep -E "^test result|FAILED|panicked|error: test failed|SIGABRT" | sed "s/error: test failed/FAILED (test binary aborted): error: test failed/" | head -20; fi; } > $LOG.demo
 grep -q "FAILED" $LOG.demo || { echo "$P $K: demo does not fail with the change"; cat $LOG.demo; exit 1; }
 OUT=/verif/seeded/$P-$OUTK; mkdir -p $OUT
 cp $SRC/patch.diff $OUT/; for d in $DEMOS; do cp $SRC/$d $OUT/; done; cp $SRC/notes.md $OUT/notes.md 2>/dev/null
